@@ -332,6 +332,8 @@ fn judge_c05(env: &Env, case: &Case, out: &Outcome, injected: Option<u32>, fails
                 continue;
             }
             let want_buf = expected_buf(s.tag, s.buflen as usize);
+            rep.class_if(s.join_in_print && s.panic, "panicked-thread-joined-inside-a-print-statement");
+            rep.class_if(s.join_in_print && !s.panic, "joined-inside-a-print-statement");
             if s.stall_k > 0 {
                 rep.class_if(sr.stall_obs & 1 != 0 && s.joined(), "join-called-while-the-thread-sleeps-in-its-epilogue");
                 rep.class_if(sr.stall_obs & 1 != 0 && !s.joined(), "handle-dropped-while-the-thread-sleeps-in-its-epilogue");
@@ -774,7 +776,7 @@ fn spec_strategy(c06: bool) -> impl Strategy<Value = Spec> {
         (-40_000i64..200_000, prop::bool::weighted(0.12), 200_000u32..1_500_000, prop::bool::weighted(0.10), 1u8..=2, 200_000u32..700_000),
     )
         .prop_map(|(ty, panic, disp, inline, cd, pd, buflen, tag, (jitter, spurious, sp_delay, stall, stall_k, stall_ns))| {
-            let mut s = Spec { ty, panic, disp, inline, child_delay: cd, parent_delay: pd, buflen, tag, spurious: false, stall_ns: 0, stall_k: 0, reuse: false };
+            let mut s = Spec { ty, panic, disp, inline, child_delay: cd, parent_delay: pd, buflen, tag, spurious: false, stall_ns: 0, stall_k: 0, reuse: false, join_in_print: false };
             if spurious && !panic && (disp == DISP_JOIN || disp == DISP_KEEP_END) {
                 // the thread sleeps first so that the joiner is parked when the spurious wake-up arrives
                 s.spurious = true;
@@ -845,7 +847,7 @@ fn fault_case_strategy(builds: Vec<&'static str>) -> impl Strategy<Value = Case>
 }
 
 fn sp(ty: u8, panic: bool, disp: u8, inline: bool, cd: Delay, pd: Delay, buflen: u16, tag: u64) -> Spec {
-    Spec { ty, panic, disp, inline, child_delay: cd, parent_delay: pd, buflen, tag, spurious: false, stall_ns: 0, stall_k: 0, reuse: false }
+    Spec { ty, panic, disp, inline, child_delay: cd, parent_delay: pd, buflen, tag, spurious: false, stall_ns: 0, stall_k: 0, reuse: false, join_in_print: false }
 }
 
 /// The four fixed small batches of the fault enumeration.
@@ -939,6 +941,20 @@ fn stall_batch(k: u8, join: bool) -> Batch {
     Batch { specs }
 }
 
+/// Every result type x {return, panic}, each joined as an argument of `eprint!` (the joiner holds the stderr
+/// print lock while it waits), half of them while the thread is still working.
+fn print_join_batch() -> Batch {
+    let mut specs = Vec::new();
+    for ty in 0..NTY {
+        for panic in [false, true] {
+            let mut s = sp(ty, panic, DISP_JOIN, ty % 2 == 0, if (ty / 2) % 2 == 0 { Delay::Sleep(300_000) } else { Delay::None }, Delay::None, 16, 0x9100 + 2 * ty as u64 + panic as u64);
+            s.join_in_print = true;
+            specs.push(s);
+        }
+    }
+    Batch { specs }
+}
+
 /// Pairs (A, B) of threads with the same result type, without the probe's quarantine: A's handle is dropped
 /// exactly when the k-th stalled free of A's epilogue has begun, B is spawned right afterwards (its join state is
 /// the next allocation of that size) and joined at once while it still works for 3 ms.
@@ -993,6 +1009,19 @@ pub fn run(ctx: &Ctx) {
             if (k as u32 + 2) % ctx.nworkers == ctx.worker {
                 let case = Case { build: build.to_string(), strace: false, fault: None, batches: vec![reuse_batch(1), reuse_batch(2), reuse_batch(3), reuse_batch(1), reuse_batch(2), reuse_batch(3)] };
                 if !ctx.run_one("reuse", &case, || run_case(&env, &case)) {
+                    break;
+                }
+            }
+        }
+    }
+    // join evaluated inside a print statement (the joiner holds the stderr print lock)
+    if let Some(case) = ctx.replay_case::<Case>("print-join") {
+        ctx.run_one("print-join", &case, || env.attempt(&case));
+    } else if !ctx.is_replay() {
+        for (k, build) in builds.iter().enumerate() {
+            if (k as u32 + 3) % ctx.nworkers == ctx.worker {
+                let case = Case { build: build.to_string(), strace: false, fault: None, batches: vec![print_join_batch()] };
+                if !ctx.run_one("print-join", &case, || run_case(&env, &case)) {
                     break;
                 }
             }
